@@ -151,7 +151,7 @@ func runC03(c *ev.Ctx) {
 	if c.Thorough() {
 		pairStep = 1
 	}
-	c.Rule(fmt.Sprintf("valid JSON texts generated from a specification tree plus spelling choices (expected result known by construction): (1) every tree with <= %d nodes, depth <= 3 over 9 leaves and keys {\"\",a,b}, plus every object with 2..3 members over keys {\"\",a,b} WITH duplicate keys (last wins), flat and nested; (2) for every tree with <= %d nodes: whitespace layouts none / each single gap x {SP,LF,CR,HT,SP LF HT CR} / every gap x the same; (3) strings as list element, object value and key: every scalar value >= U+0020 except quote and backslash raw, every BMP non-surrogate code point as a \\uXXXX escape in lower and upper hex, surrogate-pair escapes on a grid with step %d over both halves (step 1 = all 1 048 576), the 8 short escapes, every string of <= %d tokens over a 14-token raw/escape alphabet; (4) numbers: sign x 8 integer parts x 6 fractions x 9 exponents as element and object value, followed by each delimiter and each whitespace. Every text is first validated by the strict recogniser and encoding/json against the expectation (generator self-check = harness error, never a violation). Non-trivial = distinct text containing an escape, a non-ASCII byte, whitespace, a fraction/exponent or nesting >= 2.", treeN, wsN, pairStep, tokLen))
+	c.Rule(fmt.Sprintf("valid JSON texts generated from a specification tree plus spelling choices (expected result known by construction): (1) every tree with <= %d nodes, depth <= 3 over 9 leaves and keys {\"\",a,b}, plus every object with 2..3 members over keys {\"\",a,b} WITH duplicate keys (last wins), flat and nested; (2) for every tree with <= %d nodes: whitespace layouts none / each single gap x {SP,LF,CR,HT,SP LF HT CR} / every gap x the same; (3) strings as list element, object value and key: every scalar value >= U+0020 except quote and backslash raw, every BMP non-surrogate code point as a \\uXXXX escape in lower and upper hex, surrogate-pair escapes on a grid with step %d over both halves (step 1 = all 1 048 576), the 8 short escapes, every string of <= %d tokens over a 14-token raw/escape alphabet; (3b) every literal of <= 2 such tokens crossed with 4 whitespace choices in each of the 4 gaps around it, as key / object value / list elements (spelling x layout); (4) numbers: sign x 8 integer parts x 6 fractions x 9 exponents as element and object value, followed by each delimiter and each whitespace. Every text is first validated by the strict recogniser and encoding/json against the expectation (generator self-check = harness error, never a violation). Non-trivial = distinct text containing an escape, a non-ASCII byte, whitespace, a fraction/exponent or nesting >= 2.", treeN, wsN, pairStep, tokLen))
 	c.Assume("expected number kinds follow the statement: integer literal fitting int -> int, everything else within float64 range -> correctly rounded float64 (big.Rat)", "lone surrogate escapes have no agreed decoding and are not generated")
 
 	gen := func(emit func(c03Doc) bool) {
@@ -312,6 +312,28 @@ func runC03(c *ev.Ctx) {
 				return
 			}
 		}
+		// (3b) spelling x layout: every literal of <= 2 tokens (and the single-token ones doubled) with
+		// independent whitespace in each of the four gaps around it, as key, as object value and as list elements
+		wsGap := []string{"", " ", "\n", "\t \r"}
+		total2, offs2 := powSum(len(toks), 0, 2)
+		for i := int64(0); i < total2; i++ {
+			n, rest := decodeLen(i, 0, offs2)
+			dg := digits(rest, len(toks), n, nil)
+			var lit, val strings.Builder
+			for _, d := range dg {
+				lit.WriteString(toks[d].lit)
+				val.WriteString(toks[d].val)
+			}
+			l, v := `"`+lit.String()+`"`, val.String()
+			for g := 0; g < 256; g++ {
+				g0, g1, g2, g3 := wsGap[g&3], wsGap[g>>2&3], wsGap[g>>4&3], wsGap[g>>6&3]
+				if !emit(c03Doc{"{" + g0 + l + g1 + ":" + g2 + "1" + g3 + "}", spec.O(spec.P(v, spec.I(1))), "layout-x-spelling/key"}) ||
+					!emit(c03Doc{`{"k"` + g0 + ":" + g1 + l + g2 + "," + g3 + `"j":2}`, spec.O(spec.P("k", spec.S(v)), spec.P("j", spec.I(2))), "layout-x-spelling/object-value"}) ||
+					!emit(c03Doc{"[" + g0 + l + g1 + "," + g2 + l + g3 + "]", spec.L(spec.S(v), spec.S(v)), "layout-x-spelling/list"}) {
+					return
+				}
+			}
+		}
 		// (4) numbers
 		for _, sg := range numSigns {
 			for _, ip := range numInts {
@@ -345,7 +367,9 @@ func runC03(c *ev.Ctx) {
 		if textNontrivial(d.Text) || strings.ContainsAny(d.Text, " \n\r\t") {
 			c.Nontrivial(d.Text)
 		}
-		c.SampleTag(d.Tag, func() interface{} { return map[string]string{"space": d.Tag, "text": d.Text, "expect": d.Want.String()} })
+		c.SampleTag(d.Tag, func() interface{} {
+			return map[string]string{"space": d.Tag, "text": d.Text, "expect": d.Want.String()}
+		})
 		if msg, stage := c03One(d); msg != "" {
 			d := d
 			sig := "parse/" + stage + "/" + c03Tag(d.Tag) + "/" + c03Class(d)
